@@ -205,6 +205,100 @@ def param (v : View) (k : Bytes) : Bytes :=
     | some kv => kv.2
     | none => []
 
+/-- preparation of the tree path for `/d/:id` (same as `stepsTree` below; here for the non-vacuity example) -/
+def stepsTreeW (req : Nat) (id : Bytes) : List Step :=
+  [.setRequest req, .setResponse req, .setIndex (-1), .zeroCount, .setRouter 1, .setVersion [],
+   .writeParam "id".toList id, .setPattern "/d/:id".toList, .setHandlers 4, .setIndex (-1)]
+
+/-- the names a preparation writes (the parameters of the matched route) -/
+def writtenKeys : List Step → List Bytes
+  | [] => []
+  | .writeParam k _ :: r => k :: writtenKeys r
+  | _ :: r => writtenKeys r
+
+/-- every key a handler can reach through `Param` (visible slots, map entries) is in `K` -/
+def KeysIn (c : Ctx) (K : List Bytes) : Prop :=
+  (∀ i, i < min c.paramCount.toNat 8 → (c.slots i).1 ∈ K) ∧ (∀ kv ∈ c.params.getD [], kv.1 ∈ K)
+
+theorem lemma_mapSet_keys (m : List KV) (k v : Bytes) (K : List Bytes) (h : ∀ kv ∈ m, kv.1 ∈ K) :
+    ∀ kv ∈ mapSet m k v, kv.1 ∈ k :: K := by
+  induction m with
+  | nil => intro kv hkv; simp [mapSet] at hkv; subst hkv; simp
+  | cons x r ih =>
+    intro kv hkv
+    simp only [mapSet] at hkv
+    split at hkv
+    · simp only [List.mem_cons] at hkv
+      rcases hkv with rfl | hr
+      · simp
+      · exact List.mem_cons_of_mem _ (h kv (List.mem_cons_of_mem _ hr))
+    · simp only [List.mem_cons] at hkv
+      rcases hkv with rfl | hr
+      · exact List.mem_cons_of_mem _ (h _ (by simp))
+      · exact ih (fun kv hkv => h kv (List.mem_cons_of_mem _ hkv)) kv hr
+
+theorem lemma_keys_step (c : Ctx) (K : List Bytes) (s : Step) (h : KeysIn c K) :
+    KeysIn (s.apply c) (match s with | .writeParam k _ => k :: K | _ => K) := by
+  cases s with
+  | writeParam k v =>
+    simp only [Step.apply]
+    split
+    · rename_i hlt
+      refine ⟨?_, fun kv hkv => List.mem_cons_of_mem _ (h.2 kv hkv)⟩
+      intro i hi
+      simp only at hi ⊢
+      by_cases hik : i = c.paramCount.toNat
+      · simp [hik]
+      · simp only [hik, if_false]
+        exact List.mem_cons_of_mem _ (h.1 i (by omega))
+    · refine ⟨fun i hi => List.mem_cons_of_mem _ (h.1 i hi), ?_⟩
+      simpa using lemma_mapSet_keys (c.params.getD []) k v K h.2
+  | zeroCount => exact ⟨fun i hi => by simp [Step.apply] at hi, h.2⟩
+  | _ => exact h
+
+theorem lemma_keys_prepare (steps : List Step) : ∀ (c : Ctx) (K : List Bytes), KeysIn c K →
+    ∀ k, k ∉ K → k ∉ writtenKeys steps →
+      (∀ i, i < min (prepare steps c).paramCount.toNat 8 → ((prepare steps c).slots i).1 ≠ k) ∧
+      (∀ kv ∈ (prepare steps c).params.getD [], kv.1 ≠ k) := by
+  induction steps with
+  | nil =>
+    intro c K h k hk _
+    exact ⟨fun i hi he => hk (he ▸ h.1 i hi), fun kv hkv he => hk (he ▸ h.2 kv hkv)⟩
+  | cons s rest ih =>
+    intro c K h k hk hw
+    simp only [prepare, List.foldl_cons]
+    have hs := lemma_keys_step c K s h
+    cases s with
+    | writeParam k' v' =>
+      simp only [writtenKeys, List.mem_cons, not_or] at hw
+      exact ih _ (k' :: K) hs k (by simp [hw.1, hk]) hw.2
+    | _ => exact ih _ K hs k hk (by simpa [writtenKeys] using hw)
+
+theorem lemma_find_none {l : List KV} {k : Bytes} (h : ∀ kv ∈ l, kv.1 ≠ k) : l.find? (·.1 == k) = none := by
+  simp only [List.find?_eq_none, beq_iff_eq]
+  exact fun kv hkv => h kv hkv
+
+/-- **a name that is not a parameter of the matched route reads as empty** — on every pooled object that went through
+    `reset`, after any preparation that follows the discipline (`covers`), whatever the object held before -/
+theorem unknown_param_empty (steps : List Step) (c : Ctx) (hc : Clean c) (hcov : covers {} steps = true)
+    (k : Bytes) (hk : k ∉ writtenKeys steps) : param (view (prepare steps c)) k = [] := by
+  rw [prepare_fresh steps {} c brandNew hc hcov]
+  have hb : KeysIn brandNew [] := ⟨fun i hi => by simp [brandNew] at hi, fun kv hkv => by simp [brandNew] at hkv⟩
+  obtain ⟨h1, h2⟩ := lemma_keys_prepare steps brandNew [] hb k (by simp) hk
+  unfold param
+  have hv : (view (prepare steps brandNew)).visible.find? (·.1 == k) = none := by
+    apply lemma_find_none
+    intro kv hkv
+    simp only [view, List.mem_map, List.mem_range] at hkv
+    obtain ⟨i, hi, rfl⟩ := hkv
+    exact h1 i hi
+  have hm : (view (prepare steps brandNew)).mapEntries.find? (·.1 == k) = none := lemma_find_none h2
+  simp [hv, hm]
+
+/-- non-vacuity: after a request on `/d/:id` the name `stale` (which the previous handler put everywhere) reads empty -/
+example : param (view (prepare (stepsTreeW 2 "7".toList) (reset (prepare (stepsTreeW 1 "42".toList) brandNew)))) "stale".toList = [] := by
+  decide
+
 /-- **app-level pool**: whatever object the app pool hands out (even one a broken `Put` left dirty) and whatever the
     handler does (Bind caches the body and the presence map), the handler of a request starts with its own router
     context, its app and no binding metadata, and a clean object goes back. The three assignments and the three
